@@ -961,11 +961,10 @@ def _graph_job(chunk):
                         tick('edges')
                         if bool(call(this, 'ConnectionExists', u, v)) != ((u, v) in ref.edges):
                             fail('edges', '%s: ConnectionExists(%d, %d) is %s' % (label, u, v, (u, v) not in ref.edges), 'ConnectionExists')
-                        if u != v:
-                            tick('reachability')
-                            want = v in ref.reach_plus(u)
-                            if bool(call(this, 'IsReachableFrom', v, u)) != want:
-                                fail('reachability', '%s: IsReachableFrom(dest=%d, source=%d) is %s' % (label, v, u, not want), 'IsReachableFrom')
+                        tick('reachability')
+                        want = v in ref.reach_plus(u)           # a path of at least one edge: the convention the self-loop case fixes
+                        if bool(call(this, 'IsReachableFrom', v, u)) != want:
+                            fail('reachability', '%s: IsReachableFrom(dest=%d, source=%d) is %s%s' % (label, v, u, not want, ' although the item lies on a cycle' if u == v else ''), 'IsReachableFrom')
                 tick('counts')
                 ic, cc = call(this, 'ItemsCount'), call(this, 'ConnectionsCount')
                 if ic != len(ref.nodes) or cc != len(ref.edges):
